@@ -133,6 +133,8 @@ class Model:
     def delete(self, n):
         if n.upper() == 'INBOX' or n not in self.names:
             return b'NO'
+        if self.backend == 'maildirfs' and any(m.startswith(n + DELIM) for m in self.names):
+            return b'KNOWN-NO-INFERIORS'     # known finding C11-maildirfs-delete-with-inferiors (RFC 3501 6.3.4 permits the DELETE)
         self.names.discard(n)
         return b'OK'
 
@@ -276,6 +278,15 @@ async def scenario(prog, deep_lists, backend='dict'):
         if want == b'NO?':
             model.names = {n for n in after if n != 'INBOX'}
             if got not in (b'OK', b'NO'):
+                errors.append(f'{where}: answered {got}')
+        elif want == b'KNOWN-NO-INFERIORS':
+            if got == b'NO':
+                errors.append(('delete_with_inferiors_refused_on_maildir_fs',
+                               f'{where}: DELETE of a mailbox that has inferior names is refused on the fs layout (RFC 3501 6.3.4 permits it: '
+                               f'the messages go, the name stays as \\Noselect)'))
+            elif got == b'OK':
+                model.names = {n for n in after if n != 'INBOX'}
+            else:
                 errors.append(f'{where}: answered {got}')
         elif want == b'KNOWN-NO':
             if got == b'NO':
